@@ -311,12 +311,19 @@ def bfs_execute(spec, history, check_prefix=True):
     Returns the canonical key of the reached state."""
     st = spec.init()
     n = len(history)
+    if n == 0:
+        spec.invariant(st)
     for i, act in enumerate(history):
         last = (i == n - 1)
         spec.step(st, act, check=(last or check_prefix))
         if last or check_prefix:
             spec.invariant(st)
-    return spec.canon(st)
+    # the canonical key is reduced to a 128-bit digest: keys built with deep_key are large and
+    # would otherwise dominate the cost of shipping results to the parent
+    key = spec.canon(st)
+    if isinstance(key, (str, int, bytes)) or (isinstance(key, tuple) and len(key) <= 8 and all(isinstance(i, (str, int)) for i in key)):
+        return key              # small keys are kept readable (callers may use the returned state set)
+    return hashlib.blake2b(repr(key).encode("utf-8", "backslashreplace"), digest_size=16).digest()
 
 
 class BfsSpec(object):
@@ -451,8 +458,6 @@ class Ctx(object):
         S.current_clause = clause
         S.current_case = dict(spec.params(), history=[])
         key0 = bfs_execute(spec, [], check_prefix=True)
-        st0 = spec.init()
-        spec.invariant(st0)
         self.stats.merge(S)
         seen = {key0}
         frontier = [[]]
@@ -469,21 +474,24 @@ class Ctx(object):
                 nchunks = max(1, min(len(frontier), NPROC * 4))
                 chunks = [frontier[i::nchunks] for i in range(nchunks)]
                 results = pool.imap_unordered(_worker_bfs, chunks) if pool else map(_worker_bfs, chunks)
-                nxt = []
+                best = {}
+                rank = lambda h: json.dumps(h, sort_keys=True, default=repr)
                 for st, out in results:
                     self.stats.merge(st)
                     for key, hist in out:
-                        nxt.append((key, hist))
-                # deterministic choice of the representative history: shortest, then smallest
-                nxt.sort(key=lambda kh: (len(kh[1]), json.dumps(kh[1], sort_keys=True, default=repr)))
-                frontier = []
-                for key, hist in nxt:
-                    if key not in seen:
-                        if cap is not None and len(seen) >= cap:
-                            capped = True
+                        if key in seen:
                             continue
-                        seen.add(key)
-                        frontier.append(hist)
+                        cur = best.get(key)
+                        # deterministic representative: the smallest history reaching the state
+                        if cur is None or rank(hist) < rank(cur):
+                            best[key] = hist
+                frontier = []
+                for key, hist in sorted(best.items(), key=lambda kh: rank(kh[1])):
+                    if cap is not None and len(seen) >= cap:
+                        capped = True
+                        break
+                    seen.add(key)
+                    frontier.append(hist)
                 levels.append(len(frontier))
                 if capped:
                     break
